@@ -57,10 +57,6 @@ theorem C18_counterexample_leftover_directory :
 theorem C18_counterexample_delete_objects_omits :
     Differs [.createBucket bka, .putObject bka kA [1] none {} none, .deleteObjects bka [kA, kB]] := by decide
 
-/-- fs:unknown-upload-code -/
-theorem C18_counterexample_unknown_upload_code :
-    Differs [.createBucket bka, .uploadPart alice bka kA (some 1) 1 [1]] := by decide
-
 /-- fs:upload-not-bound-to-key -/
 theorem C18_counterexample_upload_not_bound_to_key :
     Differs [.createBucket bka, .createMultipartUpload alice bka kA none, .uploadPart alice bka kB (some 1) 1 [1]] := by
@@ -83,6 +79,7 @@ metadata file; ca1e912 copy onto itself keeps the object; d6f1a3c head_object te
 24de822 delete_bucket refuses a bucket that holds objects; 20fee59 delete_object of a key that does not exist succeeds; cc244fc (and 20fee59 for delete_object) an object in a bucket
 that does not exist is `NoSuchBucket`, not `NoSuchKey`; 0f31b61 delete_objects on a bucket that does not exist is `NoSuchBucket`; 42c2f29 head_object returns the ETag;
 0932917 complete_multipart_upload validates the part list and the part files before it changes anything: a failed complete leaves the upload in place, a part that was never uploaded is `InvalidPart`;
+38336b0 operations on an upload that does not exist answer `NoSuchUpload`;
 b89afe2 ranged reads: covered for all ranges by `C18_get_refines_partial` and `C18_range_check`, the kernel cannot
 evaluate the decimal formatter of `Content-Range`) -/
 
@@ -206,6 +203,33 @@ theorem C18_fixed_complete_missing_part :
       .completeMultipartUpload alice bka kA (some 1) (some [some 1]), .uploadPart alice bka kA (some 1) 1 [1],
       .completeMultipartUpload alice bka kA (some 1) (some [some 1]), .getObject bka kA none]).2.map tagOf =
       [none, none, some .InvalidPart, none, none, none] := by decide
+
+/-- was fs:unknown-upload-code and fs:list-parts-unknown-upload (the witness histories of `corpus/fs.txt` first): every
+    operation on an upload id that was never issued, that is not a UUID at all, or whose upload has been completed or
+    aborted, is `NoSuchUpload` on both sides — list_parts too, which answered an empty list —; an existing upload is still
+    `AccessDenied` to other credentials -/
+theorem C18_fixed_unknown_upload :
+    Same [.createBucket bka, .uploadPart alice bka kA (some 1) 1 [1], .listParts alice bka kA (some 1),
+      .putObject bka kB [2] none {} none,
+      .uploadPartCopy alice bka kA (some 1) 1 bka kB none, .completeMultipartUpload alice bka kA (some 1) (some [some 1]),
+      .abortMultipartUpload alice bka kA (some 1),
+      .uploadPart alice bka kA none 1 [1], .listParts alice bka kA none, .uploadPartCopy alice bka kA none 1 bka kB none,
+      .completeMultipartUpload alice bka kA none (some [some 1]), .abortMultipartUpload alice bka kA none,
+      .createMultipartUpload alice bka kA none, .uploadPart bob bka kA (some 1) 1 [1], .listParts bob bka kA (some 1),
+      .abortMultipartUpload bob bka kA (some 1), .abortMultipartUpload alice bka kA (some 1),
+      .uploadPart alice bka kA (some 1) 1 [1], .listParts alice bka kA (some 1)] ∧
+    (run H0 0 {} [.createBucket bka, .uploadPart alice bka kA (some 1) 1 [1], .listParts alice bka kA (some 1),
+      .putObject bka kB [2] none {} none,
+      .uploadPartCopy alice bka kA (some 1) 1 bka kB none, .completeMultipartUpload alice bka kA (some 1) (some [some 1]),
+      .abortMultipartUpload alice bka kA (some 1),
+      .uploadPart alice bka kA none 1 [1], .listParts alice bka kA none, .uploadPartCopy alice bka kA none 1 bka kB none,
+      .completeMultipartUpload alice bka kA none (some [some 1]), .abortMultipartUpload alice bka kA none,
+      .createMultipartUpload alice bka kA none, .uploadPart bob bka kA (some 1) 1 [1], .listParts bob bka kA (some 1),
+      .abortMultipartUpload bob bka kA (some 1), .abortMultipartUpload alice bka kA (some 1),
+      .uploadPart alice bka kA (some 1) 1 [1], .listParts alice bka kA (some 1)]).2.map tagOf =
+      [none, some .NoSuchUpload, some .NoSuchUpload, none, some .NoSuchUpload, some .NoSuchUpload, some .NoSuchUpload,
+       some .NoSuchUpload, some .NoSuchUpload, some .NoSuchUpload, some .NoSuchUpload, some .NoSuchUpload,
+       none, some .AccessDenied, none, some .AccessDenied, none, some .NoSuchUpload, some .NoSuchUpload] := by decide
 
 /-- was fs:suffix-range-longer-than-object / fs:suffix-range-huge-panics: the model no longer fails or panics (the answer
     itself is compared by `C18_get_refines_partial`) -/
